@@ -94,7 +94,7 @@ def run_case(case, out, backends, layouts_rng=None):
             out.count("agree")
         else:
             out.violation(
-                {"kind": d[0], "family": case.family, "risk": G_risk(case)},
+                {"kind": d[0], "family": case.family, "risk": G_risk(case), "backend_kind": "einsum" if "einsum" in str(b) else "other"},
                 {"case": case.to_json(), "backend": b, "layout": layout, "detail": d[1]},
                 f"einx.{case.op}({case.desc()!r}, shapes={case.in_shapes}, {kw}) backend={b}: {d[1]}",
             )
@@ -105,7 +105,7 @@ def run(spec, out):
 
     rng = random.Random(spec["seed"])
     nprng = np.random.default_rng(spec["seed"])
-    P = {"maxlen": spec["maxlen"], "br_flat_p": 0.08}
+    P = {"maxlen": spec["maxlen"], "br_flat_p": 0.08, "dtype_p": 0.25}
     from .. import exec as X
 
     for i in range(spec["n"]):
